@@ -313,6 +313,18 @@ def main() -> int:
     for i in range(800 if thorough else 90):
         text, names = programs.program((env.seed(), "C19-G1", i), style="untidy")
         cases.append({"id": f"untidy{i}", "text": text, "options": {}})
+    # one line of the program opts out of formatting: a renaming that cannot touch that line must leave the whole binding alone
+    from . import c20
+
+    ri = env.rng(PROP, "ignored-lines")
+    for i, t in enumerate(list(c20.RENAMERS) + [c["text"] for c in cases[:600 if thorough else 120:2]]):
+        idx = c20.annotatable_lines(t)
+        if not idx:
+            continue
+        lines = t.split("\n")
+        for k in (idx if i < len(c20.RENAMERS) else ri.sample(idx, min(2, len(idx)))):
+            annotated = "\n".join(l + "  # pyrefact: ignore" if j == k else l for j, l in enumerate(lines))
+            cases.append({"id": f"ignored_line{i}:{k}", "text": annotated, "options": [{}, {"safe": True}][k % 2]})
     tot = {}
     with pool.Pool() as p:
         verdict.run_witnesses(v, p)
